@@ -34,10 +34,23 @@ def _is_tree(x) -> bool:
     return isinstance(x, Tree)
 
 
+class FP(list):
+    """Input fingerprints taken at the entry of a contracted call, plus the fingerprints (taken at
+    the same moment) of the results that the last few contracted calls returned."""
+
+    held: list = []
+
+
 class Recorder:
     def __init__(self):
         self.evals = Counter()
         self.problems: list[tuple[str, str, str]] = []  # (function, mechanism, detail)
+        self.held: list = []  # (function, result tree) of the last two contracted calls
+
+    def snap(self, fps: list) -> "FP":
+        out = FP(fps)
+        out.held = [(fn, t, fingerprint(t)) for fn, t in self.held]
+        return out
 
     def problem(self, fn, mech, detail):
         if len(self.problems) < 200:
@@ -47,10 +60,25 @@ class Recorder:
     def check(self, fn: str, inputs: list, old_fps: list, result, mode: str = "general",
               root_pos: int | None = None) -> None:
         self.evals[fn] += 1
+        # results handed out by earlier calls belong to the caller: whatever they were when this
+        # call began (the harness may have edited them meanwhile), this call must not touch them
+        for fn0, t0, fp0 in getattr(old_fps, "held", ()):
+            self.evals["earlier_results_rechecked"] += 1
+            if t0 is not result and not any(t0 is i_ for i_ in inputs) and fingerprint(t0) != fp0:
+                self.problem(fn, "earlier-result-changed",
+                             f"the tree returned by an earlier {fn0} call was modified while "
+                             f"{fn} ran on other trees (shared scratch storage?)")
+        if _is_tree(result):
+            self.held = (self.held + [(fn, result)])[-2:]
         if not _is_tree(result):
             return
         ids, pid = result.id(), result.pid()
         n = len(ids)
+        if n == 0:
+            # nothing survived (a type no node has, everything pruned): the statement's
+            # well-formed trees have a root, so this lies outside it; counted, not decided
+            self.evals["empty_results"] += 1
+            return
         if mode == "root_at":
             # re-rooting with sorting switched off keeps the new root at its old position
             ok = None
@@ -138,19 +166,19 @@ def install():
 
     # ---- condition functions (named, argument names match the wrapped functions) --------
     def snap_tree(tree):
-        return [fingerprint(tree)] if _is_tree(tree) else [None]
+        return REC.snap([fingerprint(tree)] if _is_tree(tree) else [None])
 
     def snap_swc_like(swc_like):
-        return [fingerprint(swc_like)] if _is_tree(swc_like) else [None]
+        return REC.snap([fingerprint(swc_like)] if _is_tree(swc_like) else [None])
 
     def snap_two(tree1, tree2):
-        return [fingerprint(tree1), fingerprint(tree2)]
+        return REC.snap([fingerprint(tree1), fingerprint(tree2)])
 
     def snap_x(x):
-        return [fingerprint(x)] if _is_tree(x) else [None]
+        return REC.snap([fingerprint(x)] if _is_tree(x) else [None])
 
     def snap_self_attach(self):
-        return [fingerprint(self.attach)] if _is_tree(self.attach) else [None]
+        return REC.snap([fingerprint(self.attach)] if _is_tree(self.attach) else [None])
 
     def post_sort_tree(tree, result, OLD):
         REC.check("sort_tree", [tree], OLD.fp, result, "sorted")
@@ -212,3 +240,12 @@ def install():
         cls.__call__ = wrap(cls.__call__, snap_x, make_post_x(
             None if cls in (geo.AffineTransform, ttree.Resampler) else cls.__name__))
     return REC
+
+
+def report(ctx, label: str) -> None:
+    """Hand the verdicts recorded while another check's workload ran to that check's collector."""
+    for fn, mech, detail in REC.problems:
+        ctx.violation("c03-contract:" + mech, f"{fn}: {detail}",
+                      {"note": f"global C03 contract set during the {label} workload"})
+    ctx.count("c03_contract_evaluations", sum(REC.evals.values()))
+    ctx.count("earlier_results_rechecked", REC.evals.get("earlier_results_rechecked", 0))
